@@ -422,6 +422,10 @@ def execute(stim):
                         rec('stopreq')
                     elif k == 'sigterm':
                         os.kill(os.getpid(), signal.SIGTERM)
+                    elif k == 'sigterm_idle':
+                        # the signal arrives one tick later, while the loop is waiting in select()
+                        loop.on_signal = lambda: rec('sigsent')
+                        loop.signal_at = (loop.time() + TICK, signal.SIGTERM)
                     elif k == 'support_return':
                         return 'return'
                     elif k == 'support_fail':
